@@ -27,6 +27,7 @@ ENGINE = "net"
 LEVEL = "exploration"
 TECHNIQUE = "deterministic simulation: hostile response generation over a pipelined connection, wire parsed by a reference parser and by h11"
 QUICK_RUNS = 32000
+TWIN_P = 0.08   # this share of the runs drives two independent instances of the scenario one after the other (detsim.runner._run_scenario)
 BATCH = 50
 RUN_WALL_LIMIT_S = 90   # a run takes milliseconds; the wall-clock watchdog only has to survive machine stalls under heavy shared load
 COMPONENTS = {
